@@ -5,7 +5,7 @@
    A key is a list of positions into the current array: ANY order, repeats allowed; chains of any depth;
    both avoid_copies modes (pandas' normalisation of slices / masks / negative ints to positions is done by
    the harness and not modelled). *)
-From SA Require Import Base.Prelude Index.Index Index.Index_Spec View.View View.View_Spec View.View_Proofs View.View_Phrase Query.Phrase_Spec.
+From SA Require Import Base.Prelude Index.Index Index.Index_Spec View.View View.View_Spec View.View_Proofs View.View_Phrase Query.Phrase_Spec View.View_Phrase4.
 Open Scope N_scope.
 
 Theorem C06_selection_succeeds : forall docs bs ix avoid keys,
@@ -73,3 +73,33 @@ Example C06_unsorted_duplicate_negative_keys :
               | _ => False end
   | _ => False end.
 Proof. vm_compute. repeat split. Qed.
+
+(* ================= no restriction on the phrase or the position range (View/View_Phrase4.v) =================
+   The view's answer equals the PARENT's answer re-indexed by the composed key for EVERY term list (immediate
+   repetitions included; fewer than two terms or an unaligned range raise the same error on both sides) and EVERY
+   position range; likewise BM25 scores and position-ranged term frequencies. *)
+Theorem C06_phrase_commutes_any_phrase_any_range : forall docs bs ix avoid keys v ph lo hi,
+  wf_docs docs -> index false bs docs = AOk ix -> valid_keys (length docs) keys ->
+  select_chain (of_index ix avoid) keys = AOk v ->
+  v_phrase_freqs v ph lo hi =
+    ado s <- v_phrase_freqs (of_index ix avoid) ph lo hi;
+    AOk (map (fun r => nth (N.to_nat r) s 0) (compose_rows (rows0 docs) keys)).
+Proof. exact View_Phrase4.C06_phrase_commutes_any. Qed.
+Print Assumptions C06_phrase_commutes_any_phrase_any_range.
+
+Theorem C06_ranged_term_frequency_commutes : forall docs bs ix avoid keys v t lo hi,
+  wf_docs docs -> index false bs docs = AOk ix -> valid_keys (length docs) keys ->
+  select_chain (of_index ix avoid) keys = AOk v ->
+  v_termfreqs v t lo hi =
+    ado s <- v_termfreqs (of_index ix avoid) t lo hi;
+    AOk (map (fun r => nth (N.to_nat r) s 0) (compose_rows (rows0 docs) keys)).
+Proof. exact View_Phrase4.C06_ranged_tf_commutes. Qed.
+
+Theorem C06_score_commutes_any_query : forall docs bs ix avoid keys v ts idf k1 b,
+  wf_docs docs -> index false bs docs = AOk ix -> valid_keys (length docs) keys ->
+  select_chain (of_index ix avoid) keys = AOk v ->
+  v_score_bm25 v ts idf k1 b =
+    ado s <- v_score_bm25 (of_index ix avoid) ts idf k1 b;
+    AOk (map (fun r => nth (N.to_nat r) s 0%Z) (compose_rows (rows0 docs) keys)).
+Proof. exact View_Phrase4.C06_score_commutes_any. Qed.
+Print Assumptions C06_score_commutes_any_query.
